@@ -71,6 +71,9 @@ def gen_cases(tier, seed):
             for i in range(31):
                 cases.append({"k": "dur", "c": "word-en/%s" % u, "f": "%s %s" % (G.NUM_EN[i], w), "n": i + 1, "u": u})
                 cases.append({"k": "dur", "c": "word-de/%s" % u, "f": "%s %s" % (G.NUM_DE[i], w), "n": i + 1, "u": u})
+            for n_, vs in G.NUM_DE_VARIANTS.items():
+                for v in vs:
+                    cases.append({"k": "dur", "c": "word-de-variant/%s" % u, "f": "%s %s" % (v, w), "n": n_, "u": u})
             for one in G.NUM_ONE_VARIANTS:
                 cases.append({"k": "dur", "c": "word-one/%s" % u, "f": "%s %s" % (one, w), "n": 1, "u": u})
     for f, (n, u) in G.HALF_FORMS.items():
